@@ -148,6 +148,18 @@ class C12(Check):
                             acc.violation('C12|fixed|muldiv-%s' % rnd, 'muldiv(%s,%s,%s,round=%s) at p=%d gives %r, exact law %s'
                                           % (a, b, c, rnd, p, got, want), case)
         elif k == 'fx-misc':
+            if p == 0:
+                # integer arithmetic is the zero-place case whatever precision option happens to be lying around
+                from ..repo import Options
+                for stray in (3, 5, '4'):
+                    o = Options({'arithmetic': 'integer', 'precision': stray})
+                    V.initialize(o)
+                    acc.evaluations += 1
+                    r = V(7) / V(2)
+                    if V.name != 'integer' or V.precision != 0 or r._value != 3 or str(r) != '3':
+                        acc.violation('C12|fixed|integer-with-precision-option', 'arithmetic=integer with a stray precision=%r gives name %s precision %s and 7/2 = %s'
+                                      % (stray, V.name, V.precision, r), case)
+                V = arith.init_fixed(0, integer=True)
             vals = range(-6, 7)
             for L in (1, 2, 3):
                 for combo in itertools.product(vals, repeat=L):
